@@ -19,7 +19,10 @@ import (
 //	             again after every operation it accepts (the two hands overlap in time)
 //	reuse-apply  the game object has been used before: it played Hist of configuration Other and is
 //	             then given the options of the hand under test (ApplyOptions + Start)
-//	reuse-load   the same, but the used object receives the started state of the hand under test
+//	same-options the options object the hand is created from was used before: another game was created
+//	             from the very same object and played (check / call / pass) to its showdown, as an
+//	             application does that keeps its table options around and starts hand after hand from them
+//	reuse-load   the same as reuse-apply, but the used object receives the started state of the hand under test
 //	             through LoadState (decoded from its JSON)
 type Scene struct {
 	Kind  string   `json:"kind"`
@@ -108,6 +111,33 @@ func (sc *Scene) start(c *Config, o *pf.GameOptions) (pf.Game, error) {
 		}
 		sc.interfere()
 		return &besideGame{Game: g, sc: sc}, nil
+	case "same-options":
+		g0 := pf.NewGame(o)
+		if err := g0.Start(); err != nil {
+			return nil, err
+		}
+		for step := 0; step < 300 && g0.GetState().Status.CurrentEvent != "GameClosed"; step++ {
+			ops := Alphabet(c, g0.GetState())
+			if len(ops) == 0 {
+				break
+			}
+			pick, best := ops[0], 99
+			for _, op := range ops {
+				if r, ok := map[string]int{"Check": 0, "Call": 1, "Pass": 2, "Fold": 3}[op.Kind]; ok && r < best {
+					best, pick = r, op
+				}
+			}
+			if err, p := Apply(g0, pick); err != nil || p != "" {
+				otherRefused.Add(1)
+				break
+			}
+			otherAccepted.Add(1)
+		}
+		g := pf.NewGame(o)
+		if err := g.Start(); err != nil {
+			return nil, err
+		}
+		return g, nil
 	case "reuse-apply":
 		g, err := sc.otherGame()
 		if err != nil {
@@ -151,6 +181,8 @@ func (sc *Scene) describe() string {
 		return fmt.Sprintf("a second game (%s) is created, started and played %v after Start() and after every accepted operation of this hand", sc.Other.Short(), sc.Hist)
 	case "reuse-apply":
 		return fmt.Sprintf("the game object first played %v of (%s), then got this hand through ApplyOptions + Start", sc.Hist, sc.Other.Short())
+	case "same-options":
+		return "the options object was used before: another game was created from it and checked / called down to its showdown"
 	case "reuse-load":
 		return fmt.Sprintf("the game object first played %v of (%s), then got the started state of this hand through LoadState", sc.Hist, sc.Other.Short())
 	}
@@ -196,6 +228,11 @@ func SceneGrid(tier string) []*Config {
 	}
 	var out []*Config
 	for _, s := range subjects {
+		{
+			c := *s
+			c.Scene = &Scene{Kind: "same-options", Other: s}
+			out = append(out, &c)
+		}
 		for _, kind := range []string{"beside", "reuse-apply", "reuse-load"} {
 			for _, sc := range otherScripts {
 				c := *s
